@@ -96,8 +96,11 @@ Definition read_fragment_post (g0 : graph) (fragname : pystr) (bonding : list (Z
     let g7 := set_nodes_from g6 (S "element") (map (fun k => (k, VStr (S "z"))) keep) in
     g8 <- remove_explicit_hydrogens g7 ;;
     let g9 := set_nodes_from g8 (S "element") (map (fun k => (k, VStr (S "H"))) keep) in
-    cls <- map_res (fun kv => l <- as_list (snd kv) ;;
-                              match rev l with x :: _ => Ok (fst kv, x) | [] => Err EIndex end) ez ;;
+    cls <- map_res (fun kv => match snd kv with
+                              | VStr s => c <- py_last s ;; Ok (fst kv, VStr [c])       (* val[-1] of a token *)
+                              | v => l <- as_list v ;;
+                                     match rev l with x :: _ => Ok (fst kv, x) | [] => Err EIndex end
+                              end) ez ;;
     Ok (set_nodes_from g9 (S "ez_isomer_class") cls).
 
 (** ------------------------------------------------------------ compute_mass *)
